@@ -4,6 +4,7 @@ set -e
 export CARGO_NET_OFFLINE=true
 cargo build --offline --quiet --release --target-dir target/serial
 cargo build --offline --quiet --release --features par --target-dir target/par
+(cd shimbuild && cargo build --offline --quiet --release --features par --target-dir ../target/shim)
 cargo +nightly miri setup >/dev/null 2>&1 || true
 MIRIFLAGS="-Zmiri-disable-stacked-borrows -Zmiri-permissive-provenance -Zmiri-ignore-leaks -Zmiri-deterministic-floats -Zmiri-seed=0" \
   CARGO_TARGET_DIR=target/miri cargo +nightly miri run --offline --quiet --features par -- 3 2 tiny 1 >/dev/null
